@@ -44,6 +44,8 @@ class World:
         eng.classes.update({"Seek": (), "FrameCount": (), "FrameDuration": (), "AlignedPadding": ("Padding",), "ExactPadding": ("Padding",),
                             "MyRenderable": ("Renderable",)})
         eng.int_enums = set(eng.int_enums) | {"Seek"}
+        # a duration held in a symbolic integer is a number of milliseconds (> 0) or DYNAMIC, which has a reserved code
+        eng.enum_codes = {("FrameDuration", "DYNAMIC"): -1000}
         eng.exc_parents.update({"FinalizedIteratorError": "RenderIteratorError", "RenderIteratorError": "TermImageError",
                                 "StopDefiniteIterationError": "RenderError", "RenderError": "TermImageError",
                                 "IncompatibleRenderArgsError": "RenderArgsError", "RenderArgsError": "TermImageError"})
@@ -165,6 +167,11 @@ class World:
         return [(None, s)]
 
     def gen_close(self, e, s, recv, a, k):
+        if getattr(self, "generator_may_be_running", False):
+            # close() called from inside a frame render (a callback of the renderable): the generator is executing and refuses
+            s1 = e.fork(s)
+            s1.ghost["generator_refused"] = True
+            e.raise_(ExcVal("ValueError", ("generator already executing",)), s1)
         s = e.fork(s)
         s.H(recv)["closed"] = True
         return [(None, s)]
@@ -510,6 +517,7 @@ def seek_cases():
 def dur_cases():
     def setup_int(W, eng, st):
         d = z3.Int("duration")
+        st.pc += [d != c for c in eng.enum_codes.values()]       # a genuine integer (the reserved code stands for DYNAMIC: next case)
 
         def check(eng, k, val, s, snap):
             if k == "raise":
@@ -656,11 +664,19 @@ def u_close(ctx):
         eng = ctx.engine(f"C10/close[{'closed' if closed else 'open'}]", "C10")
         st = State()
         W = World(ctx, eng, st, closed=closed)
+        W.generator_may_be_running = True
         st.env["self"] = W.self_
         snap = snapshot(W, st)
         outs = run_function(eng, ctx.fn(IT, "RenderIterator.close"), st)
         for kind, val, s in outs:
             it, rd = s.H(W.self_), s.H(W.render_data)
+            if kind == "raise" and s.ghost.get("generator_refused") and val.cls == "ValueError":
+                # a close() that could not be carried out must not leave an iterator that says "closed" over data nobody will
+                # finalize any more (the error path of __next__ calls close() again: that call has to do the work)
+                fin_ok = z3.Or(to_z3(rd["finalized"]), z3.Not(to_z3(it["_finalize_data"])))
+                eng.oblige("close()-refused-by-the-running-generator:not-marked-closed-unless-the-data-was-dealt-with", s,
+                           Or(it["_closed"] is False, And(it["_closed"] is True, fin_ok)), kind="raise", replay="C10.reentrant_close")
+                continue
             if kind == "raise":
                 eng.oblige(f"no-exception:{val.cls}", s, False, kind="raise")
                 continue
